@@ -1,5 +1,5 @@
 #!/bin/bash
-# Re-applies every stored seeded change to /repo in turn and runs the quick tier of the check recorded as detecting it (normally the check of the property it breaks).
+# Re-applies every stored seeded change to /repo in turn and runs the check recorded as detecting it, in the tier recorded (quick unless the meta.json says thorough) (normally the check of the property it breaks).
 # usage: regress_seeded.sh [name-glob]      Output: one line per change; exit 1 if any is not caught.
 set -u
 cd /verif
@@ -7,7 +7,8 @@ fail=0
 for d in seeded/${1:-*}/; do
   n=$(basename $d)
   prop=$(python3 -c "import json;m=json.load(open('$d/meta.json'));print(m.get('detection',{}).get('check') or m['breaks_property'])")
-  line=$(./scripts/run_seeded.sh $d quick $prop 2>&1 | tail -1)
+  tier=$(python3 -c "import json;m=json.load(open('$d/meta.json'));print(m.get('detection',{}).get('tier') or 'quick')")
+  line=$(./scripts/run_seeded.sh $d $tier $prop 2>&1 | tail -1)
   echo "$line"
   echo "$line" | grep -q "caught=yes" || fail=1
 done
